@@ -381,3 +381,215 @@ Proof.
     as [(o1 & E1 & _) (o2 & E2 & Ho & _)].
   split; [exists o1; exact E1|exists o2; split; assumption].
 Qed.
+
+(* ---------- remove_idle_qubits ---------- *)
+Section Idle.
+Variable used : list bitref.
+Notation ren := (idle_rename used).
+
+(* the registers while walking the original program vs. while walking the result *)
+Record Shr (env env2 : renv) : Prop := {
+  sh_c : e_c env2 = e_c env;
+  sh_inc : e_inc env2 = e_inc env;
+  sh_some : forall r n, sget r (e_q env) = Some n ->
+            sget r (e_q env2) = (if rank used r n =? 0 then None else Some (rank used r n));
+  sh_none : forall r, sget r (e_q env) = None -> sget r (e_q env2) = None
+}.
+
+Definition all_used (l : list bitref) : Prop := forall b, In b l -> bmem b used = true.
+
+Lemma ren_in_reg env env2 b : Shr env env2 -> bmem b used = true -> in_reg (e_q env) b = true -> in_reg (e_q env2) (ren b) = true.
+Proof.
+  intros S Hu H. unfold in_reg in *. destruct b as [r i]. unfold idle_rename. cbn [fst snd] in *.
+  destruct (sget r (e_q env)) as [n|] eqn:E; [|discriminate]. apply andb_true_iff in H as [H0 H1]. apply Z.leb_le in H0. apply Z.ltb_lt in H1.
+  pose proof (rank_in_range used r i n (conj H0 H1) Hu) as [R0 R1].
+  rewrite (sh_some _ _ S r n E). destruct (rank used r n =? 0) eqn:Ez; [apply Z.eqb_eq in Ez; lia|].
+  apply andb_true_iff. split; [apply Z.leb_le|apply Z.ltb_lt]; lia.
+Qed.
+
+Lemma ren_inj env a b : bmem a used = true -> bmem b used = true ->
+  in_reg (e_q env) a = true -> in_reg (e_q env) b = true -> ren a = ren b -> a = b.
+Proof.
+  intros Ua Ub Ha Hb E. destruct a as [r i], b as [r' i']. unfold idle_rename in E. cbn [fst snd] in E. inversion E; subst r'.
+  unfold in_reg in *. cbn [fst snd] in *. destruct (sget r (e_q env)) as [n|]; [|discriminate].
+  apply andb_true_iff in Ha as [Ha _]. apply andb_true_iff in Hb as [Hb _]. apply Z.leb_le in Ha, Hb.
+  f_equal. eapply rank_injective; eauto.
+Qed.
+
+Lemma ren_distinct env l : forall acc, all_used acc -> all_used l ->
+  forallb (in_reg (e_q env)) acc = true -> forallb (in_reg (e_q env)) l = true ->
+  distinctb acc l = true -> distinctb (map ren acc) (map ren l) = true.
+Proof.
+  induction l as [|b l IH]; intros acc Ua Ul Hacc Hl Hd; [reflexivity|].
+  cbn [forallb] in Hl. apply andb_true_iff in Hl as [Hb Hl]. cbn [distinctb map] in *.
+  apply andb_true_iff in Hd as [Hn Hd]. apply andb_true_iff. split.
+  - apply negb_true_iff. apply negb_true_iff in Hn. destruct (existsb (bitref_eqb (ren b)) (map ren acc)) eqn:E; [|reflexivity].
+    apply existsb_exists in E as (y & Hy & Ey). apply in_map_iff in Hy as (a & <- & Ha).
+    destruct (bitref_eqb_spec (ren b) (ren a)) as [Efa|]; [|discriminate].
+    assert (b = a). { eapply ren_inj; eauto; [apply Ul; now left|eapply forallb_forall in Hacc; eauto]. } subst a.
+    assert (existsb (bitref_eqb b) acc = true); [|congruence]. apply existsb_exists. exists b. split; [exact Ha|]. destruct (bitref_eqb_spec b b); congruence.
+  - replace (map ren acc ++ [ren b]) with (map ren (acc ++ [b])) by (rewrite map_app; reflexivity).
+    apply IH; auto.
+    + intros x Hx. apply in_app_or in Hx as [Hx|[<-|[]]]; [now apply Ua|apply Ul; now left].
+    + intros x Hx. apply Ul. now right.
+    + rewrite forallb_app. cbn [forallb]. now rewrite Hacc, Hb.
+Qed.
+
+Lemma opt_list_lit_bits qs bs : mapM lit_bit qs = Some bs -> opt_list (map qarg_bit qs) = bs.
+Proof.
+  revert bs. induction qs as [|q qs IH]; intros bs H; cbn [mapM map opt_list] in *; [now inversion H|].
+  change (qarg_bit q) with (lit_bit q). destruct (lit_bit q) as [b|]; [|discriminate]. destruct (mapM lit_bit qs) as [bs'|]; [|discriminate].
+  inversion H; subst. now rewrite (IH bs' eq_refl).
+Qed.
+
+Lemma map_qarg_lit' g q b : lit_bit q = Some b -> map_qarg g q = qarg_of (g b).
+Proof. intros H. rewrite (lit_bit_qarg_of q b H). unfold map_qarg. change (qarg_bit (qarg_of b)) with (lit_bit (qarg_of b)). now rewrite lit_bit_of. Qed.
+Lemma mapM_map_qarg' g qs bs : mapM lit_bit qs = Some bs -> mapM lit_bit (map (map_qarg g) qs) = Some (map g bs).
+Proof.
+  revert bs. induction qs as [|q qs IH]; intros bs H; cbn [mapM map] in *; [inversion H; reflexivity|].
+  destruct (lit_bit q) as [b|] eqn:Eb; [|discriminate]. destruct (mapM lit_bit qs) as [bs'|]; [|discriminate]. inversion H; subst.
+  rewrite (map_qarg_lit' g q b Eb), lit_bit_of, (IH bs' eq_refl). reflexivity.
+Qed.
+
+Lemma cond_ok_shr env env2 lhs rhs : Shr env env2 -> cond_ok env2 lhs rhs = cond_ok env lhs rhs.
+Proof. intros S. unfold cond_ok. now rewrite (sh_c _ _ S). Qed.
+
+Lemma ren_op_ok n : forall stm env env2, (sdepth stm < n)%nat -> Shr env env2 -> all_used (stmt_qubits stm) ->
+  op_ok env stm = true -> op_ok env2 (map_qubits ren stm) = true.
+Proof.
+  induction n as [|n IH]; intros stm env env2 Hd S U Hok; [lia|].
+  destruct stm; try discriminate Hok; cbn [map_qubits].
+  - (* gate *)
+    cbn [op_ok] in *. destruct mods; [|discriminate Hok].
+    destruct (mapM lit_bit qubits) as [bs|] eqn:Eb; [|discriminate Hok]. rewrite (mapM_map_qarg' _ _ _ Eb).
+    cbn [stmt_qubits] in U. rewrite (opt_list_lit_bits _ _ Eb) in U.
+    destruct (mapM lit_num args) as [vs|]; [|discriminate Hok]. destruct (assoc name self_basis) as [[np k]|]; [|discriminate Hok].
+    apply andb_true_iff in Hok as [Hok Hdi]. apply andb_true_iff in Hok as [Hok Hin]. apply andb_true_iff in Hok as [Hv Hb].
+    rewrite Hv, map_length, Hb. cbn [andb]. apply andb_true_iff. split.
+    + rewrite forallb_forall in *. intros y Hy. apply in_map_iff in Hy as (b & <- & Hb'). eapply ren_in_reg; eauto.
+    + change (@nil bitref) with (map ren []). apply (ren_distinct env bs []); auto. intros x [].
+  - (* gphase *) cbn [op_ok] in *. destruct mods; [|discriminate Hok]. destruct arg; try discriminate Hok. destruct qubits; [|discriminate Hok]. exact Hok.
+  - (* measure *)
+    cbn [op_ok stmt_qubits] in *. destruct target as [t|]; [|discriminate Hok].
+    destruct (lit_bit q) as [a|] eqn:Ea; [|discriminate Hok]. destruct (lit_bit t) as [b|] eqn:Eb; [|discriminate Hok].
+    change (qarg_bit q) with (lit_bit q) in U. rewrite Ea in U. cbn [map opt_list] in U.
+    rewrite (map_qarg_lit' _ q a Ea), lit_bit_of. apply andb_true_iff in Hok as [Ha Hb]. rewrite (sh_c _ _ S), Hb, andb_true_r.
+    eapply ren_in_reg; eauto. apply U. now left.
+  - (* reset *)
+    cbn [op_ok stmt_qubits] in *. destruct (lit_bit q) as [a|] eqn:Ea; [|discriminate Hok].
+    change (qarg_bit q) with (lit_bit q) in U. rewrite Ea in U. cbn [map opt_list] in U.
+    rewrite (map_qarg_lit' _ q a Ea), lit_bit_of. eapply ren_in_reg; eauto. apply U. now left.
+  - (* barrier *)
+    cbn [op_ok stmt_qubits] in *. destruct qs as [|q [|]]; try discriminate Hok. cbn [map].
+    destruct (lit_bit q) as [a|] eqn:Ea; [|discriminate Hok].
+    cbn [map] in U. change (qarg_bit q) with (lit_bit q) in U. rewrite Ea in U. cbn [opt_list] in U.
+    rewrite (map_qarg_lit' _ q a Ea), lit_bit_of. eapply ren_in_reg; eauto. apply U. now left.
+  - (* conditional *)
+    cbn [op_ok] in *. rewrite !op_ok_block in *.
+    destruct cond; try discriminate Hok. destruct cond2; try discriminate Hok.
+    apply andb_true_iff in Hok as [Hok He]. apply andb_true_iff in Hok as [Hok Ht]. apply andb_true_iff in Hok as [Hok Hne].
+    apply andb_true_iff in Hok as [Hop Hc].
+    cbn [sdepth] in Hd. rewrite (sdepth_block then_), (sdepth_block else_) in Hd.
+    rewrite sq_if in U.
+    assert (Hblock : forall l, forallb (op_ok env) l = true -> (ldepth l < n)%nat -> all_used (sql l) ->
+              forallb (op_ok env2) ((fix go (l : list stmt) : list stmt := match l with [] => [] | x :: l' => map_qubits ren x :: go l' end) l) = true).
+    { induction l as [|x l IHl]; intros Hl Hdl Ul; [reflexivity|].
+      cbn [forallb] in Hl. apply andb_true_iff in Hl as [Hx Hl]. unfold ldepth in Hdl. cbn [fold_right] in Hdl. fold (ldepth l) in Hdl.
+      cbn [forallb]. rewrite <- used_sql in Ul. cbn [used_qubits] in Ul.
+      rewrite (IH x env env2); auto; try lia.
+      - cbn [andb]. apply IHl; auto; try lia. rewrite <- used_sql. intros b Hb. apply Ul. apply in_or_app. now right.
+      - intros b Hb. apply Ul. apply in_or_app. now left. }
+    rewrite Hop, (cond_ok_shr env env2 _ _ S), Hc. cbn [andb].
+    rewrite (Hblock then_ Ht), (Hblock else_ He); try lia.
+    + destruct then_; [discriminate Hne|reflexivity].
+    + intros b Hb. apply U. apply in_or_app. now right.
+    + intros b Hb. apply U. apply in_or_app. now left.
+Qed.
+
+End Idle.
+
+Lemma sget_sset_eq' {V} x (v : V) l : sget x (sset x v l) = Some v.
+Proof. apply FixProofs.sget_sset_eq. Qed.
+
+Lemma idle_program used l : forall env env2, Shr used env env2 -> all_used used (used_qubits l) ->
+  wf_flat env l = true -> wf_flat env2 (map (map_qubits (idle_rename used)) (shrink_decls used l)) = true.
+Proof.
+  induction l as [|stm l IH]; intros env env2 Sh U H; [reflexivity|]. cbn [wf_flat] in H.
+  destruct (top_step env stm) as [env'|] eqn:Es; [|discriminate].
+  assert (Ul : all_used used (used_qubits l)) by (intros b Hb; apply U; cbn [used_qubits]; apply in_or_app; now right).
+  destruct (top_step_op env stm env' Es) as [(Et & Ho & ->)|(Ho & Hid)].
+  - (* an operation: kept, renamed *)
+    assert (Hs : shrink_decls used (stm :: l) = stm :: shrink_decls used l)
+      by (destruct stm; try reflexivity; cbn [op_ok] in Ho; discriminate Ho).
+    rewrite Hs. cbn [map wf_flat].
+    assert (Us : all_used used (stmt_qubits stm)) by (intros b Hb; apply U; cbn [used_qubits]; apply in_or_app; now left).
+    pose proof (ren_op_ok used (S (sdepth stm)) stm env env2 (Nat.lt_succ_diag_r _) Sh Us Ho) as Ho'.
+    assert (top_step env2 (map_qubits (idle_rename used) stm) = Some env2) as ->; [|now apply (IH env env2)].
+    destruct stm; try (exfalso; cbn [op_ok] in Ho; discriminate Ho); cbn [map_qubits top_step] in *; now rewrite Ho'.
+  - destruct Sh as [Sc Si Ss Sn].
+    destruct stm; cbn [top_step] in Es; try (rewrite Ho in Es; discriminate Es).
+    + (* include *)
+      destruct (smem file (e_inc env)) eqn:Ef; [discriminate|]. inversion Es; subst env'.
+      cbn [shrink_decls map map_qubits wf_flat top_step]. rewrite Si, Ef.
+      apply (IH (mkEnv (e_q env) (e_c env) (file :: e_inc env)) (mkEnv (e_q env2) (e_c env2) (file :: e_inc env))); [|exact Ul|exact H].
+      split; cbn [e_q e_c e_inc]; auto.
+    + (* qubit declaration *)
+      destruct size as [e|]; [|rewrite Ho in Es; discriminate]. destruct e; try (rewrite Ho in Es; discriminate). destruct v; try (rewrite Ho in Es; discriminate).
+      destruct (fresh_name env name && (1 <=? z) && (z <? 100000)) eqn:Ec; [|discriminate]. inversion Es; subst env'.
+      apply andb_true_iff in Ec as [Ec H2]. apply andb_true_iff in Ec as [F H1]. apply Z.leb_le in H1. apply Z.ltb_lt in H2.
+      assert (Fq : sget name (e_q env) = None /\ sget name (e_c env) = None /\ is_constant_name name = false).
+      { unfold fresh_name in F. destruct (sget name (e_q env)); [discriminate|]. destruct (sget name (e_c env)); [discriminate|]. apply negb_true_iff in F. auto. }
+      destruct Fq as (Fq & Fc & Fk).
+      cbn [shrink_decls]. destruct (rank used name z =? 0) eqn:Ez.
+      * (* the whole register is idle: undeclared *)
+        apply (IH (mkEnv (sset name z (e_q env)) (e_c env) (e_inc env)) env2); [|exact Ul|exact H].
+        split; cbn [e_q e_c e_inc]; auto.
+        -- intros r n Hr. destruct (String.eqb_spec r name) as [->|Nr].
+           ++ rewrite sget_sset_eq' in Hr. inversion Hr; subst n. rewrite Ez. now apply Sn.
+           ++ rewrite sget_sset_neq in Hr by exact Nr. now apply Ss.
+        -- intros r Hr. destruct (String.eqb_spec r name) as [->|Nr]; [rewrite sget_sset_eq' in Hr; discriminate|].
+           rewrite sget_sset_neq in Hr by exact Nr. now apply Sn.
+      * cbn [map map_qubits wf_flat top_step].
+        assert (Hk : 1 <= rank used name z < 100000).
+        { apply Z.eqb_neq in Ez. pose proof (rank_le used name z ltac:(lia)). pose proof (rank_mono used name 0 z ltac:(lia)). rewrite rank_cnt in *. cbn in *. lia. }
+        assert (fresh_name env2 name = true) as ->.
+        { unfold fresh_name. rewrite (Sn name Fq), Sc, Fc, Fk. reflexivity. }
+        assert ((1 <=? rank used name z) = true) as -> by (apply Z.leb_le; lia).
+        assert ((rank used name z <? 100000) = true) as -> by (apply Z.ltb_lt; lia). cbn [andb].
+        apply (IH (mkEnv (sset name z (e_q env)) (e_c env) (e_inc env)) (mkEnv (sset name (rank used name z) (e_q env2)) (e_c env2) (e_inc env2))); [|exact Ul|exact H].
+        split; cbn [e_q e_c e_inc]; auto.
+        -- intros r n Hr. destruct (String.eqb_spec r name) as [->|Nr].
+           ++ rewrite sget_sset_eq' in Hr. inversion Hr; subst n. rewrite Ez, sget_sset_eq'. reflexivity.
+           ++ rewrite sget_sset_neq in Hr by exact Nr. rewrite sget_sset_neq by exact Nr. now apply Ss.
+        -- intros r Hr. destruct (String.eqb_spec r name) as [->|Nr]; [rewrite sget_sset_eq' in Hr; discriminate|].
+           rewrite sget_sset_neq in Hr by exact Nr. rewrite sget_sset_neq by exact Nr. now apply Sn.
+    + (* bit declaration *)
+      destruct t; try (rewrite Ho in Es; discriminate). destruct size as [e|]; [|rewrite Ho in Es; discriminate].
+      destruct e; try (rewrite Ho in Es; discriminate). destruct v; try (rewrite Ho in Es; discriminate).
+      destruct (fresh_name env name && (1 <=? z) && (z <? 100000) && bit_init_ok init) eqn:Ec; [|discriminate]. inversion Es; subst env'.
+      cbn [shrink_decls map map_qubits wf_flat top_step].
+      assert (fresh_name env2 name = fresh_name env name) as ->.
+      { unfold fresh_name. rewrite Sc. destruct (sget name (e_q env)) eqn:Eq.
+        - rewrite (Ss name z0 Eq). destruct (rank used name z0 =? 0); [|reflexivity]. apply andb_true_iff in Ec as [Ec _]. apply andb_true_iff in Ec as [Ec _]. apply andb_true_iff in Ec as [Ec _].
+          unfold fresh_name in Ec. rewrite Eq in Ec. discriminate.
+        - now rewrite (Sn name Eq). }
+      rewrite Ec.
+      apply (IH (mkEnv (e_q env) (sset name z (e_c env)) (e_inc env)) (mkEnv (e_q env2) (sset name z (e_c env2)) (e_inc env2))); [|exact Ul|exact H].
+      split; cbn [e_q e_c e_inc]; auto. congruence.
+Qed.
+
+Theorem remove_idle_keeps_wellformed p : wf_flat env0 p = true -> wf_flat env0 (remove_idle p) = true.
+Proof.
+  intros H. unfold remove_idle. apply (idle_program (used_qubits p) p env0 env0); [|intros b Hb; now apply bmem_In|exact H].
+  split; cbn; auto; intros; discriminate.
+Qed.
+
+Theorem remove_idle_result_is_valid_and_stable fuel p :
+  wf_flat env0 p = true -> (ldepth (remove_idle p) < fuel)%nat ->
+  (exists o, run_visit false true [] fuel (remove_idle p) = Ok o /\ num_qubits (o_state o) = total_qubits (remove_idle p)) /\
+  (exists o, run_visit false false [] fuel (remove_idle p) = Ok o /\ o_stmts o = remove_idle p /\ num_qubits (o_state o) = total_qubits (remove_idle p)).
+Proof.
+  intros H Hf. destruct (wf_flat_is_accepted_and_a_fixpoint fuel (remove_idle p) (remove_idle_keeps_wellformed p H) Hf)
+    as [(o1 & E1 & N1 & _) (o2 & E2 & Ho & N2 & _)].
+  split; [exists o1; split; assumption|exists o2; split; [exact E2|split; assumption]].
+Qed.
